@@ -569,6 +569,17 @@ def truc_rule_table(ctx, crate):
             if ok and t3[0] == 'call' and callee_path(t3[1]).startswith('core::option::Option::<T>::unwrap_or_else'):
                 a3 = trace_value(b, defs, t3[1]['args'][0])
                 ok = a3[-1][0] == 'call' and callee_path(a3[-1][1]) == 'alloc::collections::btree::map::BTreeMap::<K, V, A>::get'
+                # the fallback for an unregistered type must refuse (diverge), not invent an answer
+                fb = trace_value(b, defs, t3[1]['args'][1])[-1]
+                if fb[0] == 'rv' and fb[1].get('ak') == 'closure':
+                    cbody = crate.body(fb[1]['closure'])
+                    if cbody is None or any(cbody.blocks[x]['term']['k'] == 'return' for x in cbody.reachable(0, unwind=False)):
+                        ctx.add(['C18'], 'H-TABLE', b.key, 'a type that was never registered gets an answer from the fallback closure instead of being refused: the table no longer answers exactly what was registered', key='%s|fallback' % path)
+                else:
+                    ok = False
+            elif ok and t3[0] == 'call' and (callee_path(t3[1]) in ('core::option::Option::<T>::unwrap', 'core::option::Option::<T>::expect')):
+                a3 = trace_value(b, defs, t3[1]['args'][0])
+                ok = a3[-1][0] == 'call' and callee_path(a3[-1][1]) == 'alloc::collections::btree::map::BTreeMap::<K, V, A>::get'
             elif ok and t3[0] == 'call' and callee_path(t3[1]) == 'alloc::collections::btree::map::BTreeMap::<K, V, A>::get':
                 pass
             else:
@@ -1453,7 +1464,25 @@ def truc_rule_replay(ctx, crate):
         ctx.add(['C20'], 'V-MAP', b.key, 'the variant map does not receive (id of the source variant -> id returned by the close callback) once per source variant', key='variant-map')
     else:
         ctx.inst('V-MAP', 'variants_mapping.insert(variant.id(), id returned by close)')
-    # returned map is variants_mapping
+    # the function returns Ok(the variant map that received those inserts)
+    ret_ok = False
+    if len(ins_v) == 1:
+        mref = trace_value(b, defs, ins_v[0][1]['args'][0])[-1]
+        mlocal = mref[2]['l'] if mref[0] == 'ref' and not mref[2]['p'] else None
+        for bb, si, st in b.statements():
+            if st['k'] == 'assign' and st['place']['l'] == 0 and not st['place']['p'] and st['rv']['k'] == 'aggregate' and st['rv'].get('variant') == 'Ok':
+                src = trace_value(b, defs, st['rv']['fields'][0])[-1]
+                if (src[0] == 'multi' and src[1] == mlocal) or (src[0] == 'call' and src[1]['dest']['l'] == mlocal):
+                    ret_ok = True
+                else:
+                    l0 = op_local(st['rv']['fields'][0])
+                    d0 = single_def(defs, l0) if l0 is not None else None
+                    if d0 and d0[0] == 'stmt' and d0[3]['rv']['k'] == 'use' and op_local(d0[3]['rv']['op']) == mlocal:
+                        ret_ok = True
+    if not ret_ok:
+        ctx.add(['C20'], 'V-MAP', b.key, 'the map returned on success is not the one that received (source variant id -> target variant id)', key='returned-map')
+    else:
+        ctx.inst('V-MAP', 'returns Ok(variants_mapping)')
     # V-DELTA: what is added / removed per variant
     def data_of(op):
         """collect(RecordVariant::data(x)) -> 'cur' | 'prev' | None"""
